@@ -281,42 +281,79 @@ func (e *Env) applyDecorationsSinks() {
 	}
 	isComment := fmt.Sprintf("(strings.HasPrefix(%s, \"//\") || strings.HasPrefix(%s, \"/*\"))", dName, dName)
 	toField := "firstLine && end && r.hasCommentField(node)"
-	var fieldSite, freeSite, advSite ast.Node
+	// the sites that take or step over a comment: in the loop body, or in a method of the restorer
+	// that the loop body calls as a statement (its parameters stand for the arguments). Each site
+	// must have the expected form; how often a sink is reached per decoration is the machine's
+	// business (sinks and advances are counted there for every decoration list)
 	nField, nFree, nAdv := 0, 0, 0
-	ast.Inspect(loop.Body, func(n ast.Node) bool {
-		switch x := n.(type) {
-		case *ast.CallExpr:
-			if schema.IsMethod(c.Callee(x), load.PkgDecorator, "FileRestorer", "addCommentField") {
-				nField++
-				if len(x.Args) == 3 && c.ExprStr(x.Args[0]) == "node" && c.ExprStr(x.Args[1]) == "r.cursor" && c.ExprStr(x.Args[2]) == dName {
-					fieldSite = x
+	bad := ""
+	orderOK := true
+	scanBody := func(body ast.Node) {
+		var sinks, advs []token.Pos
+		ast.Inspect(body, func(n ast.Node) bool {
+			switch x := n.(type) {
+			case *ast.CallExpr:
+				if schema.IsMethod(c.Callee(x), load.PkgDecorator, "FileRestorer", "addCommentField") {
+					nField++
+					sinks = append(sinks, x.Pos())
+					if !(len(x.Args) == 3 && c.ExprStr(x.Args[0]) == "node" && c.ExprStr(x.Args[1]) == "r.cursor" && c.ExprStr(x.Args[2]) == dName) {
+						bad = "addCommentField(" + c.ExprStr(x.Args[0]) + ", …) at " + e.Prog.Pos(x.Pos()) + " does not take (node, r.cursor, " + dName + ")"
+					}
+				}
+			case *ast.AssignStmt:
+				if len(x.Lhs) != 1 || len(x.Rhs) != 1 {
+					return true
+				}
+				if e.isRestorerField(info, x.Lhs[0], "comments") {
+					nFree++
+					sinks = append(sinks, x.Pos())
+					if c.ExprStr(x.Rhs[0]) != "append(r.comments, &CommentGroup{List: []*Comment{{Slash: r.cursor, Text: "+dName+"}}})" {
+						bad = "the free comment list receives `" + c.ExprStr(x.Rhs[0]) + "` at " + e.Prog.Pos(x.Pos())
+					}
+				}
+				if e.isRestorerField(info, x.Lhs[0], "cursor") && x.Tok == token.ADD_ASSIGN && c.ExprStr(x.Rhs[0]) == "token.Pos(len("+dName+"))" {
+					nAdv++
+					advs = append(advs, x.Pos())
 				}
 			}
-		case *ast.AssignStmt:
-			if len(x.Lhs) != 1 || len(x.Rhs) != 1 {
-				return true
-			}
-			if e.isRestorerField(info, x.Lhs[0], "comments") {
-				nFree++
-				if c.ExprStr(x.Rhs[0]) == "append(r.comments, &CommentGroup{List: []*Comment{{Slash: r.cursor, Text: "+dName+"}}})" {
-					freeSite = x
+			return true
+		})
+		for _, sp := range sinks {
+			for _, ap := range advs {
+				if ap < sp {
+					orderOK = false
 				}
-			}
-			if e.isRestorerField(info, x.Lhs[0], "cursor") && x.Tok == token.ADD_ASSIGN && c.ExprStr(x.Rhs[0]) == "token.Pos(len("+dName+"))" {
-				nAdv++
-				advSite = x
 			}
 		}
+	}
+	scanBody(loop.Body)
+	ast.Inspect(loop.Body, func(n ast.Node) bool {
+		es, ok := n.(*ast.ExprStmt)
+		if !ok {
+			return true
+		}
+		call, ok := es.X.(*ast.CallExpr)
+		if !ok {
+			return true
+		}
+		fn := c.Callee(call)
+		if fn == nil || fn.Pkg() != pkg.Types || fn.Name() == "addCommentField" {
+			return true
+		}
+		body, undo := c.ExpandCall([]ast.Stmt{es})
+		if len(body) > 0 && body[0] != ast.Stmt(es) {
+			scanBody(&ast.BlockStmt{List: body})
+		}
+		undo()
 		return true
 	})
 	pos := e.Prog.Pos(loop.Pos())
-	if fieldSite == nil || freeSite == nil || advSite == nil || nField != 1 || nFree != 1 || nAdv != 1 {
+	if bad != "" || nField < 1 || nFree < 1 || nAdv < 1 {
 		e.Run.Violation("R-SINK", "applyDecorations: each comment goes to exactly one sink, at the cursor, then the cursor advances by its length", pos,
-			fmt.Sprintf("expected exactly one r.addCommentField(node, r.cursor, %s), one append of a group {Slash: r.cursor, Text: %s} to r.comments and one r.cursor += token.Pos(len(%s)) per decoration; found %d/%d/%d (of the expected form: %v/%v/%v)", dName, dName, dName, nField, nFree, nAdv, fieldSite != nil, freeSite != nil, advSite != nil))
+			fmt.Sprintf("expected r.addCommentField(node, r.cursor, %s), an append of a group {Slash: r.cursor, Text: %s} to r.comments and r.cursor += token.Pos(len(%s)); found %d/%d/%d sites; %s", dName, dName, dName, nField, nFree, nAdv, bad))
 		return
 	}
-	order := fieldSite.Pos() < advSite.Pos() && freeSite.Pos() < advSite.Pos()
-	e.Run.Check("R-SINK", "applyDecorations: each comment goes to exactly one sink, at the cursor, then the cursor advances by its length", pos, order,
+	e.Run.Check("R-SINK", "applyDecorations: each comment goes to exactly one sink, at the cursor, then the cursor advances by its length", pos, orderOK,
 		"both sinks take the comment at r.cursor; the advance by len(d) must come after them")
 	_, _ = isComment, toField
 }
